@@ -74,6 +74,19 @@ type amlData struct {
 	S     []byte    `json:"s,omitempty"`     // string chars / buffer initialiser bytes
 	Elems []amlData `json:"elems,omitempty"` // package elements
 	W     int       `json:"w,omitempty"`     // PkgLength width (0 = minimal)
+	Rep   int       `json:"rep,omitempty"`   // buffer: S is repeated Rep times (large initialisers stay small as JSON)
+}
+
+// bytes returns the initialiser bytes of a buffer.
+func (d amlData) bytes() []byte {
+	if d.Rep > 1 {
+		out := make([]byte, 0, len(d.S)*d.Rep)
+		for i := 0; i < d.Rep; i++ {
+			out = append(out, d.S...)
+		}
+		return out
+	}
+	return d.S
 }
 
 // amlExpr is a TermArg inside a method body.
@@ -219,7 +232,7 @@ func (d amlData) encode() []byte {
 		return append(b, 0)
 	case "buffer":
 		body := amlConst(amlBufLenKind(d.V), d.V)
-		body = append(body, d.S...)
+		body = append(body, d.bytes()...)
 		return append([]byte{0x11}, amlPkg(body, d.W)...)
 	case "package":
 		body := []byte{byte(len(d.Elems))}
